@@ -277,10 +277,26 @@ void rfbLogPerror(const char *str)
 #endif
 }
 
+void rfbScaledScreenUpdate(rfbScreenInfoPtr screen, int x1, int y1, int x2, int y2);
 void rfbScheduleCopyRegion(rfbScreenInfoPtr rfbScreen,sraRegionPtr copyRegion,int dx,int dy)
 {  
    rfbClientIteratorPtr iterator;
    rfbClientPtr cl;
+   sraRectangleIterator* ri;
+   sraRect rect;
+
+   /* the destination of the copy has changed: the scaled versions of the
+    * framebuffer have to follow, as they do in rfbMarkRectAsModified */
+   ri = sraRgnGetIterator(copyRegion);
+   while(sraRgnIteratorNext(ri,&rect)) {
+     if(rect.x1<0) rect.x1=0;
+     if(rect.y1<0) rect.y1=0;
+     if(rect.x2>rfbScreen->width) rect.x2=rfbScreen->width;
+     if(rect.y2>rfbScreen->height) rect.y2=rfbScreen->height;
+     if(rect.x1<rect.x2 && rect.y1<rect.y2)
+       rfbScaledScreenUpdate(rfbScreen,rect.x1,rect.y1,rect.x2,rect.y2);
+   }
+   sraRgnReleaseIterator(ri);
 
    iterator=rfbGetClientIterator(rfbScreen);
    while((cl=rfbClientIteratorNext(iterator))) {
